@@ -185,6 +185,8 @@ func isExcludedEntField(path string) bool {
 		return true
 	case "Ent.Nested":
 		return currentResource == "collRO" // the whole record-typed field is read-only there
+	case "Pfx.Created", "Pfx.CreatedBy", "Pfx.Address", "Pfx.AddressLine2":
+		return true // collPfx: created / address read-only, createdBy / addressLine2 create-only
 	}
 	return false
 }
@@ -230,8 +232,8 @@ func (g *gen) fill(v reflect.Value, path string) {
 		}
 		base := path
 		if base == "" || strings.HasSuffix(base, "[]") || true {
-			if name == "Ent" || name == "Leaf" {
-				if path == "" || !strings.Contains(path, "Ent") {
+			if name == "Ent" || name == "Leaf" || name == "Pfx" {
+				if path == "" || !(strings.Contains(path, "Ent") || strings.Contains(path, "Pfx")) {
 					base = name
 				}
 			}
